@@ -584,7 +584,7 @@ def clean_base(g, max_clauses=2, p_alias=0.15):
 
 
 NEAR_GROUPS = [[32, 33, 34], [35, 36, 37, 38], [26, 27, 39], [40, 41], [9, 10, 30, 31], [6, 7, 8, 21], [28, 29, 14],
-               [42, 26, 27, 28], [43, 2, 3, 20]]    # anchors in 2525 (UnixNano wraps) among anchors of the usual range
+               [42, 26, 27, 28], [43, 2, 3, 20], [11, 12, 44, 45]]    # anchors in 2525 (UnixNano wraps) among anchors of the usual range
 
 
 def broad_base(g):
@@ -978,7 +978,7 @@ def check_order(v, tier, d):
 # ------------------------------------------------------------------------------------------ C13 HAVING
 CONST_POOL = [bqlu.I(bqlu.BIG), bqlu.I(bqlu.BIG + 1), bqlu.I(-(bqlu.BIG + 1)), bqlu.FE(bqlu.FSCALE + 1), bqlu.FE(bqlu.FSCALE + 2), bqlu.FE(3), bqlu.FE(5),
               bqlu.I(-5), bqlu.I(-3), bqlu.I(-4), bqlu.I(0), bqlu.I(2), bqlu.I(1), bqlu.F(5), bqlu.F(-2), bqlu.F(-6), bqlu.F(0),
-              bqlu.X("a"), bqlu.X("b"), bqlu.X("ab"), bqlu.B(1), bqlu.N(1), bqlu.N(2), bqlu.P(1), bqlu.P(2), bqlu.P(12),
+              bqlu.X("a"), bqlu.X("b"), bqlu.X("ab"), bqlu.X("a b"), bqlu.X("a!"), bqlu.B(1), bqlu.N(1), bqlu.N(2), bqlu.P(1), bqlu.P(2), bqlu.P(12),
               {"k": "T", "v": 2}, {"k": "T", "v": 3}, {"k": "T", "v": 4}, {"k": "T", "v": 5}, {"k": "T", "v": 6}]
 
 
